@@ -1172,6 +1172,9 @@ def worker(case, led):
 def check(run):
     from props import C14_proof
     C14_proof.prove(run)
+    from props import C14_sym
+    from vk.symx.harness import guarded
+    guarded(run, C14_sym.prove)
     tier, seed = run.tier, run.seed
     cases = []
     # crash part first (long cases first keeps the pool busy): complete enumeration
